@@ -110,3 +110,25 @@ for _p in ("C02", "C03", "C04", "C13"):
 PROPS["C02"]["streams"] = [S("crash", 250, 6000, vm=(10, 100), vm_maxlen=8000), S("segcrash", 300, 8000, vm=(6, 60), vm_maxlen=6000)]
 PROPS["C08"] = dict(PROPS["C05"])
 PROPS["C08"]["streams"] = [S("seqapi", 200, 5000, vm=(5, 100), vm_maxlen=5000), S("crash", 120, 3000, vm=(5, 50), vm_maxlen=8000)]
+
+PROPS['C14'] = {'assumptions': ['single writer goroutine (StoreLogs/DeleteRange are issued by one thread of the schedule); any number of readers, stable-store callers and '
+                 'Close callers',
+                 'in-memory VFS/MetaStore emulate *os.File (read after Close fails) and BoltMetaDB (calls after Close fail)',
+                 'proved for all schedules: after_close, mutual exclusion; no-panic is proved for states satisfying the tested invariant Inv1; deadlock '
+                 'freedom, rotator exit and handle release are judged on the implementation by the sched14 oracles'],
+ 'rule': 'every API method x 9 call windows x 5 stages of Close x 3 initial logs; writer waiting for a pending rotation x rotator stage x Close stage; random '
+         'programs/schedules; distinct = distinct input lines',
+ 'streams': [{'n': (4500, 60000), 'name': 'sched14', 'timeout': 3000, 'vm': (25, 250), 'vm_maxlen': 400}],
+ 'trusted': ['Go compiler/runtime and standard library (encoding/binary, time, hash/crc32) -- differentially tested, not verified',
+             "Go runtime scheduler/memory model: the model's atomic steps are the code's atomic actions and hook points; goroutine exit and file-handle "
+             'release are observed (runtime.Stack, in-memory VFS accounting), not proved']}
+
+PROPS['C06'] = {'assumptions': ['single writer; base-index resets are run on the implementation only (not in the model)',
+                 'linearizability and use-after-close freedom are not proved: every read of every forced and free-running history is checked by the Go history '
+                 'checker (mirror of Readers.lin_check)'],
+ 'rule': 'writer programs (append, rotation, head truncation with finalisation, tail truncation + re-append of other content, whole-log deletion) x reads x '
+         'reader window x writer progress; two readers on one old state; random programs/schedules; 2 stress runs (8 readers); distinct = distinct input lines',
+ 'streams': [{'n': (2200, 40000), 'name': 'sched06', 'timeout': 3000, 'vm': (20, 200), 'vm_maxlen': 400}],
+ 'trusted': ['Go compiler/runtime and standard library (encoding/binary, time, hash/crc32) -- differentially tested, not verified',
+             'Go memory model: data-race freedom is judged by the race detector on the harness binary (thorough tier), the model-level statement is '
+             'C06_no_conflict_partial']}
